@@ -127,11 +127,15 @@ Print Assumptions C26_torn_append_refuted.
     the following Append is acknowledged, and draining delivers nothing (one
     "dropped bad disk queue segment" error). *)
 Theorem C26_advance_on_empty_refuted :
-  exists q b, q_open 1024 64 0 [] = (Some q, 0) /\ 0 < len b /\
-    exists q', q_append (q_advance q) b = (q', 0) /\ q_drain drain_fuel q' = ([], 1, 3).
+  exists b, 0 < len b /\
+    match q_open 1024 64 0 [] with
+    | (Some q, _) =>
+        let r := q_append (q_advance q) b in
+        snd r = 0 /\ q_drain drain_fuel (fst r) = ([], 1, 3)
+    | _ => False
+    end.
 Proof.
-  eexists. exists [7;7;7;7;7;7;7;7;7;7]. split; [vm_compute; reflexivity|].
-  split; [reflexivity|]. eexists. split; vm_compute; reflexivity.
+  exists [7;7;7;7;7;7;7;7;7;7]. split; [reflexivity|]. vm_compute. split; reflexivity.
 Qed.
 Print Assumptions C26_advance_on_empty_refuted.
 
@@ -141,17 +145,21 @@ Print Assumptions C26_advance_on_empty_refuted.
 Example C26_nonvacuous :
   Forall (okE 64) [w_A; w_B] /\
   (let img := torn_image (sd (rep [] [w_A; w_B] 64)) w_X 12 in
-   decn (drop (len img - 8) img) > len img - 8) /\
+   decn (drop (len img - 8) img) >? len img - 8) = true /\
   scan_n 5 (rep [w_A] [w_B; w_X] 64) (spos (rep [w_A] [w_B; w_X] 64)) = ([w_B; w_X], 56, SEof) /\
-  (forall q, q_open 1024 24 0 [] = (Some q, 0) ->
+  match q_open 1024 24 0 [] with
+  | (Some q, _) =>
      let q1 := fst (q_append (fst (q_append (fst (q_append q w_A)) w_B)) w_X) in
-     fst (q_reopen (q_advance q1)) <> None /\
-     match fst (q_reopen (q_advance q1)) with
-     | Some q2 => q_drain drain_fuel q2 = ([w_B; w_X], 0, 3) /\ (length (qsegs q1) = 3)%nat
-     | None => False end).
+     length (qsegs q1) = 2%nat /\
+     match q_reopen (q_advance q1) with
+     | (Some q2, _) => q_drain drain_fuel q2 = ([w_B; w_X], 0, 3)
+     | _ => False
+     end
+  | _ => False
+  end.
 Proof.
   split; [repeat constructor; unfold okE, len; simpl; lia|].
   split; [vm_compute; reflexivity|].
   split; [vm_compute; reflexivity|].
-  intros q H. vm_compute in H. inversion H; subst. vm_compute. split; [discriminate|split; reflexivity].
+  vm_compute. split; reflexivity.
 Qed.
